@@ -231,7 +231,9 @@ def rename_ks(t):
 
 
 def malformed_descriptors(rng, trees, n):
-    out = ['', '(', ')', '()', 'Int32Type', 'Int32Type()', 'Int32Type(UTF8Type)', 'ListType', 'ListType(', 'ListType(Int32Type',
+    out = ['VectorType(Int32Type , 4=>)', 'ListType(VectorType(Int32Type , 4=>))', 'VectorType(Int32Type , 4:)', 'VectorType(FloatType, ListType(Int32Type))',
+           'MapType(VectorType(FloatType,UserType(ks,61)),Int32Type)', 'SetType(VectorType(FloatType,FloatType)(Int32Type,2))',
+           '', '(', ')', '()', 'Int32Type', 'Int32Type()', 'Int32Type(UTF8Type)', 'ListType', 'ListType(', 'ListType(Int32Type',
            'ListType(Int32Type))', 'ListType(3)', 'ListType()', 'MapType(Int32Type)', '3', '007', '1_000', '1__0', '_1', '1_',
            'VectorType(FloatType,3)', 'VectorType(FloatType)', 'VectorType(3,FloatType)', 'VectorType(FloatType,FloatType)',
            'VectorType(FloatType,3)(Int32Type,4)', 'VectorType(FloatType,1_0)', 'VectorType(FloatType , 03)',
@@ -468,6 +470,9 @@ def run(ctx):
                'frozen marker of tuple / UDT CQL names follows the driver (frozen<tuple<..>>, frozen<name>); not independently verified',
                'UDT keyspace / type / field names are ASCII; vector dimensions are canonical decimal numerals')
     reg_exprs, rows = check_registry(ctx, C)
+    import time as _time
+    _t0 = _time.time()
+    phases = ctx.extra.setdefault('phase_seconds', {})
 
     trees = []
     # corpus first
@@ -483,7 +488,7 @@ def run(ctx):
         ex = small + ctx.rng.sample(rest, min(len(rest), 450))
     trees += ex
     trees += quoted_trees(ctx.tier)
-    nrand = 150 if ctx.tier == 'quick' else 3000
+    nrand = 150 if ctx.tier == 'quick' else 1500
     for _ in range(nrand):
         trees.append(rand_tree(ctx.rng, ctx.rng.choice([2, 3, 3, 4, 4])))
     ctx.exhaustive = (ctx.tier == 'thorough')
@@ -512,7 +517,7 @@ def run(ctx):
         cases.append('chk_tree %s %s %s %s %s' % (T.gty(t), T.gs(desc), T.gs(T.spec_cql(t)), T.gs(T.spec_cql(t, fz=False)), g))
         meta.append(('tree', t, summary))
     # histories: successive parses sharing the registry and the UDT cache; every parse must satisfy the statement on its own
-    for h in histories(ctx.rng, 25 if ctx.tier == 'quick' else 400):
+    for h in histories(ctx.rng, 25 if ctx.tier == 'quick' else 150):
         fresh.reset()
         for i, t in enumerate(h):
             bad = oracle_tree(ctx, C, fresh, t, reset=False)
@@ -529,7 +534,7 @@ def run(ctx):
             meta.append(('history', h[:i + 1], summary))
     fresh.reset()
     # CQL-only trees: nested frozen wrappers (outside the descriptor grammar): clauses 2 and 3 on the implementation + model
-    conly = cql_only_trees(ctx.rng, 60 if ctx.tier == 'quick' else 1500)
+    conly = cql_only_trees(ctx.rng, 60 if ctx.tier == 'quick' else 400)
     for t in conly:
         if repr(t) in seen:
             continue
@@ -550,15 +555,15 @@ def run(ctx):
     fresh.reset()
     # CQL strings of the trees (plain words and double-quoted names) + malformed ones
     goods = []
-    for t in (trees[:60] + trees[-230:] if ctx.tier == 'quick' else trees[:4000] + trees[-3200:]):
+    for t in (trees[:60] + trees[-230:] if ctx.tier == 'quick' else trees[:1500] + trees[-1700:]):
         if all(re.match(r'^[A-Za-z0-9_]+$', n) and n != 'frozen' for n in udt_names(t)):
             goods.append(T.spec_cql(t))
             if len(goods) % 3 == 0:
                 goods.append(T.spec_cql(t, sep=','))
         elif all(not any(ch in n for ch in '"\'\\\n') for n in udt_names(t)):
             goods.append(cql_form(t, sep=rng_sep(len(goods))))
-    goods += [cql_form(t, sep=rng_sep(i)) for i, t in enumerate(conly[:(80 if ctx.tier == 'quick' else 1500)])]
-    cqls = list(dict.fromkeys(goods + malformed_cql(ctx.rng, goods or ['int'], 120 if ctx.tier == 'quick' else 1500)))
+    goods += [cql_form(t, sep=rng_sep(i)) for i, t in enumerate(conly[:(80 if ctx.tier == 'quick' else 400)])]
+    cqls = list(dict.fromkeys(goods + malformed_cql(ctx.rng, goods or ['int'], 120 if ctx.tier == 'quick' else 600)))
     for s in cqls:
         g, g2, summary = cql_case(C, s)
         ctx.count('stream', 'cql_string')
@@ -566,7 +571,7 @@ def run(ctx):
         cases.append('(%s && %s)' % (g, g2))
         meta.append(('cql', s, summary))
     # malformed descriptors
-    for s in list(dict.fromkeys(malformed_descriptors(ctx.rng, trees, 150 if ctx.tier == 'quick' else 3000))):
+    for s in list(dict.fromkeys(malformed_descriptors(ctx.rng, trees, 150 if ctx.tier == 'quick' else 1500))):
         if not T.ascii_only(s):
             continue
         g, r, summary = parse_case(C, fresh, s)
@@ -578,6 +583,8 @@ def run(ctx):
     for e in reg_exprs:
         cases.append('(%s)' % e)
         meta.append(('registry', None, {'rows': len(rows)}))
+    phases['drive_implementation_and_oracle'] = round(_time.time() - _t0, 1)
+    _t1 = _time.time()
     try:
         bad = ctx.coq_filter(['TypeDesc'], 'chk_all', cases, prelude=PRELUDE, shard=450, timeout=3000)
         for i in bad[:12]:
@@ -594,6 +601,8 @@ def run(ctx):
                              case={kind: x}, actual=summary, model=model)
     except RuntimeError as e:
         ctx.proof_broken.append(('correspondence:TypeDesc', str(e)[-800:]))
+    phases['model_evaluation_coq'] = round(_time.time() - _t1, 1)
+    phases['model_cases'] = len(cases)
     fresh.reset()
 
 
